@@ -43,6 +43,9 @@ func delVar(fm *eval.Frame, name string) error {
 }
 
 func addVars(fm *eval.Frame, m vals.Map) error {
+	if m == nil {
+		return errs.BadValue{What: "argument to edit:add-vars", Valid: "map", Actual: "$nil"}
+	}
 	nb := eval.BuildNs()
 	for it := m.Iterator(); it.HasElem(); it.Next() {
 		k, val := it.Elem()
@@ -69,6 +72,9 @@ func addVars(fm *eval.Frame, m vals.Map) error {
 }
 
 func delVars(fm *eval.Frame, m vals.List) error {
+	if m == nil {
+		return errs.BadValue{What: "argument to edit:del-vars", Valid: "list", Actual: "$nil"}
+	}
 	names := make(map[string]struct{}, m.Len())
 	for it := m.Iterator(); it.HasElem(); it.Next() {
 		n := it.Elem()
